@@ -497,6 +497,7 @@ func executeCrash(sc Scenario, seed int64, run int, faults []Fault, twin []J, re
 	if r.kut == nil {
 		return nil, fmt.Errorf("keyper under test must be honest")
 	}
+	r.kut.TM.Sent = nil // the prologue's check-in is not part of the scenario
 	r.kut.PG.SetFault(r.hook)
 	r.kut.TM.CrashPred = r.tmPred
 	N := sc.Cfg.N
